@@ -15,7 +15,7 @@ func init() {
 // with error, write/flush failure, cancellation, operator input closed,
 // shutdown), in every state of a shell's life, over successive shells; and
 // the stalled-terminal flood.
-func c04Profiles(quick bool) []*bworld.Profile {
+func c04Profiles(quick bool) (ps []*bworld.Profile) {
 	endings := bworld.Profile{
 		Name:   "c04-endings",
 		OchCap: 1024,
@@ -62,7 +62,27 @@ func c04Profiles(quick bool) []*bworld.Profile {
 		MaxConsume:  8,
 		Oracles:     []string{"C04"},
 	}
+	/* The window between "attached" and "proxy running": a shutdown (or
+	anything else) landing exactly there. */
+	window := bworld.Profile{
+		Name:   "c04-admitted-window",
+		OchCap: 1024,
+		Starts: []bworld.StartSpec{
+			{Kind: "in", Key: "k", WKind: 2, Max: 1}, {Kind: "out", Key: "k", Max: 2}, {Kind: "io", WKind: 3, Max: 1},
+		},
+		MaxAttempts:  3,
+		MaxLines:     1,
+		Outs:         []bworld.OutSpec{{Data: "<chunk#>", Err: "eof"}},
+		MaxOuts:      1,
+		Cancel:       true,
+		Shutdown:     true,
+		GateAdmitted: true,
+		Oracles:      []string{"C04"},
+	}
 	if quick {
+		window.MaxAttempts = 2
+		window.Cancel = false
+		defer func() { ps = append(ps, &window) }()
 		endings.MaxAttempts = 3
 		io.MaxAttempts = 2
 		io.CloseIn = false
@@ -73,7 +93,7 @@ func c04Profiles(quick bool) []*bworld.Profile {
 	flood.MaxOuts = 6
 	flood.MaxConsume = 12
 	io.MaxAttempts = 3
-	return []*bworld.Profile{&endings, &io, &flood}
+	return []*bworld.Profile{&endings, &io, &flood, &window}
 }
 
 func c04(r *ev.Result, tier string) {
